@@ -29,7 +29,7 @@ fn demo_f(node: &mut Node, depth: u32) {
 pub fn run_tree(n: usize, rng: &mut Rng, out: &mut Out) {
     for _ in 0..n {
         let mut counter = 0;
-        let mut t = gen_tree(rng, 0, &mut counter);
+        let mut t = if rng.chance(1, 8) { crate::oracle::c20::gen_deep_tree(rng, &mut counter) } else { gen_tree(rng, 0, &mut counter) };
         let sx = tree_sexpr(&t);
         let mut got = vec![];
         t.walk(|n, d| got.push(format!("{}@{}", n.cast::<K>().unwrap().0, d)));
